@@ -343,6 +343,67 @@ def run_bounded(chk):
                     bad = [("exception", f"{type(e).__name__}: {e}", "")]
                 if bad:
                     fails.append((f"Polygon:{pname}/s={s:g}/{place}", {"vertices": Pn.tolist(), "scale": s, "differences": [str(b)[:300] for b in bad[:4]]}))
+    # convex polygons and spheropolygons: every ball (radius ~ s, centre moves with the shape, or the same refusal), vertex order
+    # permuted, normal not +z and centroid off the origin at the same time; distance_to_surface under scaling + translation
+    balls = ("minimal_bounding_circle", "minimal_centered_bounding_circle", "maximal_centered_bounded_circle", "maximal_bounded_circle",
+             "circumcircle", "incircle")
+    conv = {k: v for k, v in corpus.polygons_2d().items() if k in ("triangle", "rect", "quad_irregular", "pentagon_irregular", "regular7")}
+    conv["triangle345_cw"] = [(0.0, 0.0), (0.0, 3.0), (4.0, 0.0)]
+    conv["kite"] = [(0.0, 0.0), (2.0, -1.0), (5.0, 0.0), (2.0, 1.0)]
+
+    def ball_queries(shape):
+        out = {}
+        for b in balls:
+            if not hasattr(type(shape), b):
+                continue
+            try:
+                c = getattr(shape, b)
+                out[b] = (float(c.radius), np.asarray(c.centroid, float))
+            except (RuntimeError, NotImplementedError, AttributeError) as e:
+                out[b] = type(e).__name__
+        return out
+    for pname, pts in conv.items():
+        p3 = np.array([[float(x) + 0.7, float(y) - 0.4, 0.0] for x, y in pts])
+        size = float(np.ptp(p3, axis=0).max())
+        for klass, extra in (("ConvexPolygon", ()), ("ConvexSpheropolygon", (0.3 * size,))):
+            try:
+                base = getattr(cox.shapes, klass)(p3, *extra)
+            except Exception:  # noqa: BLE001
+                continue
+            qa = ball_queries(base)
+            ang = np.array([0.0, 0.4, 1.3, 2.9, 4.2, 5.8])
+            da = np.asarray(base.distance_to_surface(ang), float)
+            for s in scales:
+                for place, R, t in places:
+                    n_eval += 1
+                    Rf = np.array([[float(x) for x in row] for row in R])
+                    tv = np.asarray(t, float) * s * size / 3.0
+                    perm = list(range(len(p3)))
+                    rnd.shuffle(perm)
+                    Pn = (s * p3 @ Rf.T + tv)[perm]
+                    bad = []
+                    try:
+                        g = getattr(cox.shapes, klass)(Pn, *[s * e for e in extra])
+                        qb = ball_queries(g)
+                        for b, va in qa.items():
+                            vb = qb[b]
+                            if isinstance(va, str) or isinstance(vb, str):
+                                if va != vb:
+                                    bad.append((b, str(va)[:80], str(vb)[:80]))
+                                continue
+                            if not np.isclose(vb[0], s * va[0], rtol=1e-7):
+                                bad.append((b + ".radius", va[0], vb[0] / s))
+                            elif not np.allclose(vb[1], s * Rf @ va[1] + tv, rtol=0, atol=1e-7 * s * size + 1e-12 * np.abs(tv).max()):
+                                bad.append((b + ".center", va[1].tolist(), vb[1].tolist()))
+                        # scaling + translation only (angles are measured in the polygon's own plane)
+                        g2 = getattr(cox.shapes, klass)(s * p3 + np.array([tv[0], tv[1], 0.0]), *[s * e for e in extra])
+                        db = np.asarray(g2.distance_to_surface(ang), float)
+                        if not np.allclose(db, s * da, rtol=1e-7):
+                            bad.append(("distance_to_surface", da.tolist(), (db / s).tolist()))
+                    except Exception as e:  # noqa: BLE001
+                        bad = [("exception", f"{type(e).__name__}: {e}", "")]
+                    if bad:
+                        fails.append((f"{klass}:{pname}/s={s:g}/{place}", {"vertices": Pn.tolist(), "scale": s, "differences": [str(b)[:300] for b in bad[:4]]}))
     seen = set()
     for name, info in fails:
         key = name.split("/")[0] + info["differences"][0][:30]
@@ -356,7 +417,7 @@ def run_bounded(chk):
     chk.bounded.append({"clause": "lengths ~ s, areas ~ s^2, volumes ~ s^3, centroids move with the shape, central inertia tensors s^5 R I R^T "
                                   "(s^4 for polygons), containment and dimensionless descriptors unchanged, F(q) -> s^3 F(R^T q s) exp(-i q.t); no errors",
                         "bound": "4 (quick) / 10 convex solids with random vertex permutations, 2 (quick) / 5 voxel solids with relabelled vertices and "
-                                 "cyclically shifted faces, 6 (quick) / 11 polygons with cyclic shifts; scales {1e-3,1e-2,1,1e2,1e3} x 4 placements "
+                                 "cyclically shifted faces, 6 (quick) / 11 polygons with cyclic shifts, 7 convex polygons and spheropolygons with permuted vertices (all balls, distance_to_surface); scales {1e-3,1e-2,1,1e2,1e3} x 4 placements "
                                  "(2 exact rational rotations, offsets ~3 sizes)",
                         "evaluations": n_eval, "distinct_nontrivial": len(shapes), "rule": "distinct = base shapes; evaluations = transformed copies",
                         "samples": [{"shape": "voxel:U7", "scale": 0.001}], "failures": len(fails), "exhaustive": False})
